@@ -947,10 +947,10 @@ PROPERTY = Property(
                    examples={"quick": 2500, "thorough": 40000}, shards={"quick": 8, "thorough": 16},
                    shrink_budget={"quick": 300, "thorough": 1500}),
         Obligation("agent_batch_invariance", run_agent, strategy=agent_strategy, enumerate=agent_grid,
-                   examples={"quick": 12, "thorough": 400}, shards={"quick": 4, "thorough": 16},
+                   examples={"quick": 20, "thorough": 400}, shards={"quick": 6, "thorough": 16},
                    shrink_budget={"quick": 40, "thorough": 300}),
         Obligation("multi_agent_invariance", run_multi, strategy=multi_strategy, enumerate=multi_grid,
-                   examples={"quick": 10, "thorough": 300}, shards={"quick": 4, "thorough": 16},
+                   examples={"quick": 20, "thorough": 300}, shards={"quick": 6, "thorough": 16},
                    shrink_budget={"quick": 40, "thorough": 300}),
     ],
     assumptions=[
